@@ -19,8 +19,13 @@ package props
 // expirations, hash-locked spends) authorise nothing by signature and are not tampered with.
 
 import (
+	"bytes"
+	"encoding/json"
 	"fmt"
 	"math/rand"
+	"sort"
+	"strings"
+	"time"
 
 	"go.sia.tech/core/consensus"
 	"go.sia.tech/core/types"
@@ -93,6 +98,7 @@ func (x *c03Ctx) tamperMutants(s *chain.Sim, p chain.BlockPlan) []mutant {
 	child := s.ChildHeight()
 	add := func(kind string, edit func(mb *types.Block) bool) {
 		mb, ms := chain.DeepCopyBlock(b), chain.CopySupp(p.Supp)
+		mb.Timestamp = b.Timestamp // the copy goes through the encoding, which drops sub-second precision
 		if !edit(&mb) {
 			return
 		}
@@ -397,6 +403,14 @@ func (x *c03Ctx) tamperMutants(s *chain.Sim, p chain.BlockPlan) []mutant {
 				}
 				return true
 			})
+			if v2Signed(t) {
+				add("v2-contract-field-inputs-resigned", func(mb *types.Block) bool {
+					// the spender re-signs the inputs over the changed contract: only the contract's own signatures are stale
+					fc := &txn(mb).FileContracts[0]
+					fc.RenterOutput.Address = flipAddr(fc.RenterOutput.Address, rng)
+					return s.ResignV2(txn(mb))
+				})
+			}
 			add("v2-contract-sig-flip", func(mb *types.Block) bool {
 				fc := &txn(mb).FileContracts[0]
 				if rng.Intn(2) == 0 {
@@ -482,6 +496,17 @@ func (x *c03Ctx) tamperMutants(s *chain.Sim, p chain.BlockPlan) []mutant {
 				}
 				return true
 			})
+			if v2Signed(t) {
+				add("v2-renewal-field-inputs-resigned", func(mb *types.Block) bool {
+					x := renewal(mb)
+					if rng.Intn(2) == 0 {
+						x.FinalHostOutput.Address = flipAddr(x.FinalHostOutput.Address, rng)
+					} else {
+						x.NewContract.HostOutput.Address = flipAddr(x.NewContract.HostOutput.Address, rng)
+					}
+					return s.ResignV2(txn(mb))
+				})
+			}
 			add("v2-renewal-sig-flip", func(mb *types.Block) bool {
 				x := renewal(mb)
 				switch rng.Intn(4) {
@@ -618,12 +643,18 @@ func (x *c03Ctx) tamperMutants(s *chain.Sim, p chain.BlockPlan) []mutant {
 
 // c03InBlockRotation builds a block [key-rotating revision of X ; renewal of X] in which the
 // renewal is signed by (a) the pre-block keys, (b) the keys as they stand after the revision.
-func c03InBlockRotation(s *chain.Sim, rng *rand.Rand) (pre, post *mutant) {
+func c03InBlockRotation(s *chain.Sim, ts time.Time, miner types.Address) (pre, post *mutant) {
 	if !s.V2Allowed() {
 		return nil, nil
 	}
 	child := s.ChildHeight()
-	for _, e := range s.St.V2FC {
+	var ids []types.FileContractID
+	for id := range s.St.V2FC {
+		ids = append(ids, id)
+	}
+	sort.Slice(ids, func(i, j int) bool { return bytes.Compare(ids[i][:], ids[j][:]) < 0 })
+	for _, id := range ids {
+		e := s.St.V2FC[id]
 		fc := e.V2FileContract
 		if fc.ProofHeight < child {
 			continue
@@ -667,8 +698,8 @@ func c03InBlockRotation(s *chain.Sim, rng *rand.Rand) (pre, post *mutant) {
 			h := s.Tip.RenewalSigHash(*rn)
 			rn.RenterSignature, rn.HostSignature = s.KeyFor(renter).SignHash(h), s.KeyFor(host).SignHash(h)
 			t2 := types.V2Transaction{FileContractResolutions: []types.V2FileContractResolution{{Parent: e.Copy(), Resolution: rn}}}
-			b := types.Block{Timestamp: s.NextTimestamp(), V2: &types.V2BlockData{Transactions: []types.V2Transaction{t1, t2}}}
-			s.Seal(&b, s.NewAddr(true))
+			b := types.Block{Timestamp: ts, V2: &types.V2BlockData{Transactions: []types.V2Transaction{t1, t2}}}
+			s.Seal(&b, miner)
 			return &mutant{"", b, consensus.V1BlockSupplement{}}
 		}
 		return build(fc.RenterPublicKey, fc.HostPublicKey), build(rev.RenterPublicKey, rev.HostPublicKey)
@@ -676,24 +707,90 @@ func c03InBlockRotation(s *chain.Sim, rng *rand.Rand) (pre, post *mutant) {
 	return nil, nil
 }
 
+// c03Why classifies ValidateBlock's error (recorded in the distribution only: it shows that the
+// tampered blocks are rejected by the authorisation checks and not for an incidental reason).
+func c03Why(e string) string {
+	if i := strings.Index(e, "is invalid: "); i >= 0 { // ValidateBlock's wrapper "transaction N is invalid: ..."
+		e = e[i+len("is invalid: "):]
+	}
+	for _, k := range []string{"superfluous signature", "superfluous preimage", "invalid signature", "invalid preimage", "threshold not reached",
+		"claims incorrect policy", "claims incorrect unlock conditions", "is invalid", "is redundant", "uses an entropy public key", "missing signatures", "nonexistent public key",
+		"unsigned FoundationAddressUpdate", "does not spend an input controlled by current address", "has invalid renter signature",
+		"has invalid host signature", "attestation", "timelock", "references parent not present", "opaque policy"} {
+		if strings.Contains(e, k) {
+			return k
+		}
+	}
+	if len(e) > 60 {
+		e = e[len(e)-60:]
+	}
+	return "OTHER " + e
+}
+
 func runC03(c *fw.Ctx) {
 	res := c.Res
 	res.Rule = "random valid chains (modes v1 / mixed / v2 / legacy); for every generated block: the untampered block must be accepted by consensus.ValidateBlock, and every applicable single-point tampering (signed content of v1/v2 transactions: output address, 1 H moved from an output to the fee, arbitrary data, claim address, contract / revision / renewal fields, attestation value, Foundation address; every signature and preimage flipped, dropped, duplicated, an extra one appended; a v1 signature's PublicKeyIndex / Timelock / CoveredFields changed; unlock conditions or spend policy replaced by the attacker's own with a valid attacker signature; contract signed by other keys; a key-rotating v2 revision signed by the NEW keys; renewal / attestation signed by another key; Foundation update without the current Foundation keys), re-sealed (payout, commitment, nonce) WITHOUT re-signing, must be rejected. Every block and mutant is also judged by the Lean ledger model (verdict and, for accepted blocks, the complete diff dump). Non-trivial = every tampered block."
 	x := &c03Ctx{c: c, rng: rand.New(rand.NewSource(c.Seed*104729 + 3))}
-	nChains := c.Budget(10, 300)
+	nChains := c.Budget(10, 100)
 	blocks := c.Budget(36, 60)
 	perBlock := c.Budget(14, 1000)
+	// replay of one stored case: rebuild that chain up to the height and apply every tampering of the stored kind
+	var only struct {
+		Replay struct {
+			Mode   string `json:"mode"`
+			Seed   int64  `json:"seed"`
+			Height uint64 `json:"height"`
+			Tamper string `json:"tamper"`
+		} `json:"replay"`
+	}
+	replaying := false
+	if c.Replay != "" {
+		if raw, err := readFile(c.Replay); err == nil && json.Unmarshal(raw, &only) == nil && only.Replay.Mode != "" {
+			replaying = true
+			nChains, perBlock = 1, 1<<30
+			blocks = int(only.Replay.Height) + 1
+		} else {
+			res.Note("replay file not understood; running the seeded sweep")
+		}
+	}
 	rotationSeen := 0
 	for i := 0; i < nChains; i++ {
 		mode := ledgerModes[i%len(ledgerModes)]
 		seed := c.Seed*15485863 + int64(i)
+		if replaying {
+			mode, seed = only.Replay.Mode, only.Replay.Seed
+		}
 		s := chain.NewSim(rand.New(rand.NewSource(seed)), mode)
 		ab := chain.NewAbstractor(s)
 		res.Count("chains:" + mode)
 		for k := 0; k < blocks; k++ {
 			p := s.BuildBlock()
 			height := s.ChildHeight()
-			ms := x.tamperMutants(s, p)
+			var ms []mutant
+			if !replaying || height == only.Replay.Height {
+				ms = x.tamperMutants(s, p)
+			}
+			{ // control: the untouched copy, re-sealed the same way, must be accepted — otherwise rejections prove nothing
+				cb := chain.DeepCopyBlock(p.Block)
+				cb.Timestamp = p.Block.Timestamp
+				s.Seal(&cb, p.Miner)
+				if err := consensus.ValidateBlock(s.Tip, cb, chain.CopySupp(p.Supp)); err != nil {
+					res.Count("control-copy-rejected")
+					res.Note("control copy of a generated block rejected (%s seed %d height %d): %v", mode, seed, height, err)
+					ms = nil
+				} else {
+					res.Count("control-copy-accepted")
+				}
+			}
+			if replaying {
+				var keep []mutant
+				for _, m := range ms {
+					if m.kind == only.Replay.Tamper {
+						keep = append(keep, m)
+					}
+				}
+				ms = keep
+			}
 			x.rng.Shuffle(len(ms), func(a, b int) { ms[a], ms[b] = ms[b], ms[a] })
 			if len(ms) > perBlock {
 				ms = ms[:perBlock]
@@ -705,6 +802,9 @@ func runC03(c *fw.Ctx) {
 				res.Eval(fmt.Sprintf("%s/%d/%d/%s/%x", mode, seed, height, m.kind, m.block.ID()), true)
 				res.Count("tamper:" + m.kind)
 				verdict := "reject"
+				if err != nil {
+					res.Count("why:" + m.kind + ":" + c03Why(err.Error()))
+				}
 				switch {
 				case panicked:
 					verdict = "panic-validate"
@@ -721,7 +821,7 @@ func runC03(c *fw.Ctx) {
 			}
 			// DESIGN F8: renewal in the block of a key-rotating revision
 			if rotationSeen < c.Budget(6, 200) && k%4 == 3 {
-				if pre, post := c03InBlockRotation(s, x.rng); pre != nil {
+				if pre, post := c03InBlockRotation(s, p.Block.Timestamp, p.Miner); pre != nil {
 					rotationSeen++
 					errPre := consensus.ValidateBlock(s.Tip, pre.block, pre.supp)
 					errPost := consensus.ValidateBlock(s.Tip, post.block, post.supp)
